@@ -582,6 +582,106 @@ func (c *ctx) ecCase(ix *index, full bool) {
 	}
 }
 
+// ------------------------------------------------------------------ journal-side fault injection
+
+// faultCase makes the journal write of one deletion fail and requires atomicity of the pair
+// (mark in the sorted index, record in the journal): both or neither, and an error when neither.
+//   - EcVolume: the .ecj is a symlink to /dev/full (open and seek work, every write returns ENOSPC)
+//   - SortedFileNeedleMap: the .idx handle is read-only (as volume loading opens it for a
+//     noWriteOrDelete volume) or already closed
+func (c *ctx) faultCase(ix *index) {
+	r := c.r
+	if len(ix.Keys) == 0 {
+		return
+	}
+	rng := r.SubRng(fmt.Sprintf("c07-fault-%d", ix.I))
+	k := ix.Keys[rng.Intn(len(ix.Keys))]
+	p := ix.pos(k)
+	judge := func(op, fault string, marked, journaled bool, err error, extra map[string]interface{}) {
+		r.Eval(1)
+		r.Count("fault_cases", 1)
+		r.Count("fault_"+fault, 1)
+		extra["key"], extra["entry_index"], extra["fault"], extra["err"], extra["marked"], extra["journaled"] = k, p, fault, fmt.Sprint(err), marked, journaled
+		errs := "error-returned"
+		if err == nil {
+			errs = "no-error"
+		}
+		switch {
+		case marked && !journaled:
+			r.Violation(c.sig(lib.Sig{"op": op, "class": "marked-without-journal-record", "fault": fault, "result": errs}), c.detail(ix, extra))
+		case !marked && journaled:
+			r.Violation(c.sig(lib.Sig{"op": op, "class": "journaled-without-mark", "fault": fault, "result": errs}), c.detail(ix, extra))
+		case !marked && !journaled && err == nil:
+			r.Violation(c.sig(lib.Sig{"op": op, "class": "delete-lost-silently", "fault": fault}), c.detail(ix, extra))
+		case marked && journaled:
+			r.Count("fault_not_effective", 1)
+		default:
+			r.Count("fault_rejected_cleanly", 1)
+		}
+		r.Nontrivial(fmt.Sprintf("fault/%s/%s/%s/%d", build, op, fault, ix.I))
+	}
+	isMarked := func(b []byte) bool {
+		at := p*E + sizeAt
+		return at+4 <= len(b) && bytes.Equal(b[at:at+4], []byte{0xff, 0xff, 0xff, 0xff})
+	}
+	// --- EcVolume
+	if _, err := os.Stat("/dev/full"); err == nil {
+		dir := r.SubDir("fault-ec")
+		base := filepath.Join(dir, "7")
+		r.Must(ioutil.WriteFile(base+".idx", ix.logBytes(), 0644), "write .idx")
+		r.Must(ec.WriteSortedFileFromIdx(base, ".ecx"), "WriteSortedFileFromIdx")
+		r.Must(os.Symlink("/dev/full", base+".ecj"), "symlink .ecj")
+		r.Case(map[string]interface{}{"build": build, "index": ix.I, "part": "fault", "fault": "ecj-write-enospc", "key": k})
+		ev, err := ec.NewEcVolume(types.HardDriveType, dir, dir, "", needle.VolumeId(7))
+		if err == nil {
+			derr := ev.DeleteNeedleFromEcx(types.NeedleId(k))
+			after, _ := ioutil.ReadFile(base + ".ecx")
+			_, _, ferr := ev.FindNeedleFromEcx(types.NeedleId(k))
+			ev.Close()
+			judge("ecx-delete", "ecj-write-enospc", isMarked(after) && ix.Live[k].Size != -1, false, derr, map[string]interface{}{"find_err": fmt.Sprint(ferr)})
+		} else {
+			r.Count("fault_ec_volume_did_not_open", 1)
+		}
+		os.RemoveAll(dir)
+	} else {
+		r.Count("fault_dev_full_unavailable", 1)
+	}
+	// --- SortedFileNeedleMap
+	for _, fault := range []string{"idx-handle-read-only", "idx-handle-closed"} {
+		dir := r.SubDir("fault-sdx")
+		base := filepath.Join(dir, "9")
+		logb := ix.logBytes()
+		r.Must(ioutil.WriteFile(base+".idx", logb, 0644), "write .idx")
+		var f *os.File
+		var err error
+		if fault == "idx-handle-read-only" {
+			f, err = os.Open(base + ".idx")
+		} else {
+			f, err = os.OpenFile(base+".idx", os.O_RDWR, 0644)
+		}
+		r.Must(err, "open .idx")
+		r.Case(map[string]interface{}{"build": build, "index": ix.I, "part": "fault", "fault": fault, "key": k})
+		nm, err := storage.NewSortedFileNeedleMap(base, f)
+		if err != nil {
+			r.Count("fault_sorted_map_did_not_open", 1)
+			f.Close()
+			os.RemoveAll(dir)
+			continue
+		}
+		if fault == "idx-handle-closed" {
+			f.Close()
+		}
+		derr := nm.Delete(types.NeedleId(k), types.ToOffset(8000))
+		sdx, _ := ioutil.ReadFile(base + ".sdx")
+		idxAfter, _ := ioutil.ReadFile(base + ".idx")
+		nv, ok := nm.Get(types.NeedleId(k))
+		nm.Close()
+		judge("sorted-map-delete", fault, isMarked(sdx), !bytes.Equal(idxAfter, logb), derr,
+			map[string]interface{}{"get_found": ok, "get_size": int32(nv.Size), "idx_len": len(idxAfter), "idx_len_before": len(logb)})
+		os.RemoveAll(dir)
+	}
+}
+
 // ------------------------------------------------------------------ sorted-file needle map part
 
 func (c *ctx) sortedMapCase(ix *index) {
@@ -871,6 +971,7 @@ func main() {
 		ix := genIndex(r.SubRng(fmt.Sprintf("c07-idx-%d", d.Index)), d.Index, maxN)
 		c.ecCase(ix, true)
 		c.sortedMapCase(ix)
+		c.faultCase(ix)
 		r.Nontrivial("replay")
 		r.Finish(0)
 	}
@@ -879,6 +980,9 @@ func main() {
 		ix := genIndex(r.SubRng(fmt.Sprintf("c07-idx-%d", i)), i, maxN)
 		c.ecCase(ix, false)
 		c.sortedMapCase(ix)
+		if i < r.Pick(16, 60) {
+			c.faultCase(ix)
+		}
 		if i < 3 {
 			s := map[string]interface{}{"build": build, "index": i, "entries": len(ix.Keys), "log_len": len(ix.Log)}
 			if len(ix.Log) <= 8 {
@@ -893,6 +997,9 @@ func main() {
 	r.Note("offset_width_of_this_process", types.OffsetSize)
 	if r.Counter("ec_delete_present") == 0 || r.Counter("find_checks") == 0 || r.Counter("rebuild_checks") == 0 || r.Counter("idx_from_ec_checks") == 0 {
 		r.Inconclusive("build " + build + ": an oracle never ran (deletes/find/rebuild/idx-from-ec)")
+	}
+	if r.Counter("fault_cases") == 0 {
+		r.Inconclusive("build " + build + ": no journal fault could be injected")
 	}
 	if r.Counter("sdx_delete_present") == 0 {
 		r.Inconclusive("build " + build + ": no SortedFileNeedleMap.Delete of a present key ran")
